@@ -71,6 +71,7 @@ type Op struct {
 	Atype   string  `json:"atype"`
 	TopType string  `json:"topType"`
 	Layers  []Layer `json:"layers"`
+	Stray   []Layer `json:"stray"` // raw image / artifact manifest: the list member of the OTHER format ("blobs" / "layers")
 	Annos   []KV    `json:"annos"`
 
 	padTo   int64  // raw: pad the manifest to exactly this many bytes (0: natural size)
@@ -341,17 +342,37 @@ func (w *world) rawManifest(o *Op) ([]byte, error) {
 		if o.TopType != "" {
 			m["artifactType"] = o.TopType
 		}
+		if len(o.Stray) > 0 { // a polyglot: the legacy format's list in an image manifest
+			var st []any
+			for _, l := range o.Stray {
+				st = append(st, descJSON(l.Mt, w.blobDig(l.Blob), l.Size))
+			}
+			m["blobs"] = st
+		}
 	case mtArtifact:
 		m["mediaType"] = mtArtifact
 		m["artifactType"] = o.Atype
 		if layers != nil {
 			m["blobs"] = layers
 		}
+		if len(o.Stray) > 0 { // a polyglot: the image format's list in a legacy artifact manifest
+			var st []any
+			for _, l := range o.Stray {
+				st = append(st, descJSON(l.Mt, w.blobDig(l.Blob), l.Size))
+			}
+			m["layers"] = st
+		}
 	default: // an image index (or anything else): no layers, no artifact type the code looks at
 		m["schemaVersion"] = 2
 		m["mediaType"] = o.Mt
 		m["manifests"] = []any{}
 		m["artifactType"] = o.Atype
+	}
+	if strings.HasPrefix(o.flavour, "hostile:polyglot") && o.Id%2 == 1 {
+		// unknown extra members no decoder of either format knows
+		m["signatures"] = []any{map[string]any{"protected": "e30", "signature": "AA"}}
+		m["manifests"] = []any{descJSON(mtImage, digest.FromString("nothing"), 7)}
+		m["x-layers"] = layers
 	}
 	if o.Subject != nil {
 		c := concDesc(*o.Subject)
@@ -791,6 +812,29 @@ func (g *gen) manifestMt() string {
 	return mtArtifact
 }
 
+// polyglotKinds: (entries in the own list, entries in the stray list of the other format)
+var polyglotKinds = [][2]int{{0, 1}, {0, 2}, {1, 1}, {1, 2}, {2, 1}, {0, 1}}
+
+// polyglot builds a notation-typed referrer of the exact subject that carries both formats' lists.
+func (g *gen) polyglot(mt string, s Desc, kind int) []Op {
+	k := polyglotKinds[kind]
+	var ops []Op
+	mk := func(n int) []Layer {
+		out := []Layer{}
+		for i := 0; i < n; i++ {
+			l, b := g.storedLayer()
+			ops = append(ops, b)
+			out = append(out, l)
+		}
+		return out
+	}
+	o := g.rawBase(mt, &s, notationT)
+	o.Layers = mk(k[0])
+	o.Stray = mk(k[1])
+	o.flavour = fmt.Sprintf("hostile:polyglot:own=%d,other-format=%d", k[0], k[1])
+	return append(ops, o)
+}
+
 // storedLayer returns a layer naming fresh bytes plus the operation that stores them.
 func (g *gen) storedLayer() (Layer, Op) {
 	size := g.envSize()
@@ -802,7 +846,7 @@ func (g *gen) storedLayer() (Layer, Op) {
 func (g *gen) extra() []Op {
 	s := g.subj()
 	mt := g.manifestMt()
-	choice := g.r.Intn(19)
+	choice := g.r.Intn(21)
 	switch choice {
 	case 0: // another artifact type on the exact subject
 		l, b := g.storedLayer()
@@ -938,6 +982,8 @@ func (g *gen) extra() []Op {
 		o.Layers = []Layer{{Mt: p.Mt, Blob: p.Blob, Size: p.Bsize}}
 		o.flavour = "raw:reuses-envelope-of-a-signature"
 		return []Op{o}
+	case 18, 19: // a polyglot: members of the OTHER manifest format next to the own list
+		return g.polyglot(mt, s, g.r.Intn(len(polyglotKinds)))
 	case 16, 17: // an artifact type that only looks like the notation type, in either manifest format
 		l, b := g.storedLayer()
 		at := lookAlikes[g.r.Intn(len(lookAlikes))]
@@ -1330,6 +1376,16 @@ func Run(c *common.Ctx) error {
 		in.raceSharedRepo = c.Rand.Intn(2) == 0
 		// context stage
 		in.Cuts = []int{0, 1, 2, 3 + c.Rand.Intn(4)}
+		for i := range in.Ops {
+			if in.Ops[i].Stray == nil {
+				in.Ops[i].Stray = []Layer{}
+			}
+		}
+		for i := range in.Race {
+			if in.Race[i].Stray == nil {
+				in.Race[i].Stray = []Layer{}
+			}
+		}
 		obs, err := runCase(c, n, in, g.nSubj, g.sizes, c.Rand)
 		if err != nil {
 			return fmt.Errorf("sequence %d: %w", n, err)
@@ -1360,6 +1416,16 @@ func lookAlikeScenario(g *gen, mt string) []Op {
 
 // fixedScenarios make sure every run contains each hostile shape at least once.
 var fixedScenarios = []func(g *gen) []Op{
+	func(g *gen) []Op { // every polyglot shape in both manifest formats, beside regular signatures
+		s := subjectDesc(0)
+		ops := []Op{g.push(s, "push")}
+		for _, mt := range []string{mtImage, mtArtifact} {
+			for kind := range polyglotKinds[:5] {
+				ops = append(ops, g.polyglot(mt, s, kind)...)
+			}
+		}
+		return append(ops, g.push(s, "push"))
+	},
 	func(g *gen) []Op { // one JSON value in every spelling, as JWS: all are distinct envelopes and round-trip byte for byte
 		var ops []Op
 		first := 0
